@@ -1,6 +1,7 @@
 package main
 
 import (
+	"context"
 	"errors"
 	"fmt"
 	"sort"
@@ -81,6 +82,10 @@ func (env *c12env) eval(s *Sexp) error {
 	if !s.IsLst {
 		if s.Atom == "N" {
 			return nil
+		}
+		if s.Atom == "NS" {
+			// a typed nil: what ers.AsStack(nil) returns; every Stack method treats it as the empty stack
+			return (*ers.Stack)(nil)
 		}
 		panic("bad-term " + s.Atom)
 	}
@@ -216,6 +221,42 @@ func c12case(s *Sexp) string {
 		}
 		return fmt.Sprintf("res=%s is=%s as=%s unwind=[%s] len=%s", env.label(r),
 			env.isBits(r, s.List[1].List), strings.Join(as, ","), strings.Join(unw, ","), ln)
+	case "colseq":
+		// a sequence of calls on one Collector; every Resolve / Iterator / Len must show exactly the
+		// constituents added so far, whatever was observed before
+		ec := &erc.Collector{}
+		outs := []string{}
+		view := func(errs []error) string {
+			ls := []string{}
+			for _, e := range errs {
+				ls = append(ls, env.label(e))
+			}
+			sort.Strings(ls)
+			return strings.Join(ls, ",")
+		}
+		for _, st := range s.List[2:] {
+			switch st.Head() {
+			case "add":
+				ec.Add(env.children(st.List[1:])[0])
+				outs = append(outs, "ok")
+			case "resolve":
+				outs = append(outs, "r["+view(ers.Unwind(ec.Resolve()))+"]")
+			case "iter":
+				var got []error
+				it := ec.Iterator()
+				ctx := context.Background()
+				for it.Next(ctx) {
+					got = append(got, it.Value()) // each value is one constituent
+				}
+				_ = it.Close()
+				outs = append(outs, "i["+view(got)+"]")
+			case "len":
+				outs = append(outs, fmt.Sprint(ec.Len()))
+			default:
+				return "bad-op"
+			}
+		}
+		return strings.Join(outs, ";")
 	case "collector":
 		terms := s.List[2:]
 		errs := env.children(terms)
